@@ -199,3 +199,69 @@ package z
 //@   trusted statistics helper outside every property
 //@ func NewHistogramData(bounds []float64) *HistogramData
 //@   trusted statistics helper outside every property
+
+// ---------------------------------------------------------------- btree.go: the node layer (C10)
+//
+// A node is one page viewed as []uint64: maxKeys (key, value) slots, then the page
+// id word and the meta word (flag byte | 3 free bytes | 32-bit key count).
+//@ spec GcNodeShape(n node) bool = maxKeys >= 4 && maxKeys <= 32000 && len(n) == 2*maxKeys+2
+//@ spec GcNumKeys(n node) int = int(n[2*maxKeys+1] & 0xFFFFFFFF)
+//@ spec GcKey(n node, i int) uint64 = n[2*i]
+//@ spec GcVal(n node, i int) uint64 = n[2*i+1]
+//@ spec GcWfNode(n node) bool = GcNodeShape(n) && 0 <= GcNumKeys(n) && GcNumKeys(n) <= maxKeys && (forall i int :: 0 <= i && i < GcNumKeys(n) ==> GcKey(n, i) != 0) && (forall i, j int :: 0 <= i && i < j && j < GcNumKeys(n) ==> GcKey(n, i) < GcKey(n, j)) && forall i int :: GcNumKeys(n) <= i && i < maxKeys ==> GcKey(n, i) == 0 && GcVal(n, i) == 0
+//@ spec GcFirstGE(n node, k uint64, r int) bool = 0 <= r && r <= GcNumKeys(n) && (forall i int :: 0 <= i && i < r ==> GcKey(n, i) < k) && (r < GcNumKeys(n) ==> GcKey(n, r) >= k)
+
+//@ func (n node) numKeys() int
+//@   requires GcNodeShape(n)
+//@   ensures [C10] result == GcNumKeys(n) && 0 <= result
+
+//@ func (n node) setNumKeys(num int)
+//@   requires GcNodeShape(n) && 0 <= num && num <= maxKeys
+//@   modifies n[*]
+//@   ensures [C10] #count GcNumKeys(n) == num
+//@   ensures [C10] #frame (forall i int :: 0 <= i && i < 2*maxKeys+1 ==> n[i] == old(n[i])) && n[2*maxKeys+1]&0xFFFFFFFF00000000 == old(n[2*maxKeys+1])&0xFFFFFFFF00000000
+
+//@ func (n node) setBit(b uint64)
+//@   requires GcNodeShape(n) && b&0xFFFFFFFF == 0
+//@   modifies n[*]
+//@   ensures [C10] #frame (forall i int :: 0 <= i && i < 2*maxKeys+1 ==> n[i] == old(n[i])) && GcNumKeys(n) == old(GcNumKeys(n))
+//@   ensures [C10] #bits n[2*maxKeys+1]&0xFF00000000000000 == b&0xFF00000000000000
+
+//@ func (n node) maxKey() uint64
+//@   requires GcNodeShape(n) && 0 <= GcNumKeys(n) && GcNumKeys(n) <= maxKeys
+//@   ensures [C10] result == ite(GcNumKeys(n) > 0, GcKey(n, GcNumKeys(n)-1), GcKey(n, 0))
+
+//@ func (n node) search(k uint64) int
+//@   requires GcWfNode(n)
+//@   loop 1 invariant 0 <= i && i <= N && N == GcNumKeys(n) && forall j int :: 0 <= j && j < i ==> GcKey(n, j) < k
+//@   ensures [C10] #first GcFirstGE(n, k, result)
+
+//@ func (n node) get(k uint64) uint64
+//@   requires GcWfNode(n)
+//@   ensures [C10] #found forall i int :: 0 <= i && i < GcNumKeys(n) && GcKey(n, i) == k ==> result == GcVal(n, i)
+//@   ensures [C10] #absent (forall i int :: 0 <= i && i < GcNumKeys(n) ==> GcKey(n, i) != k) ==> result == 0
+
+//@ func zeroOut(data []uint64)
+//@   modifies data[*]
+//@   loop 1 invariant 0 <= i && i <= len(data) && forall j int :: 0 <= j && j < i ==> data[j] == 0
+//@   ensures [C10] forall j int :: 0 <= j && j < len(data) ==> data[j] == 0
+
+// moveRight shifts slots [lo, N) one slot to the right (memmove semantics).
+//@ func (n node) moveRight(lo int)
+//@   requires GcNodeShape(n) && 0 <= lo && lo <= GcNumKeys(n) && GcNumKeys(n) < maxKeys
+//@   modifies n[*]
+//@   ensures [C10] #shifted forall i int :: lo+1 <= i && i <= old(GcNumKeys(n)) ==> GcKey(n, i) == old(GcKey(n, i-1)) && GcVal(n, i) == old(GcVal(n, i-1))
+//@   ensures [C10] #frame (forall i int :: 0 <= i && i < 2*lo ==> n[i] == old(n[i])) && (forall i int :: 2*old(GcNumKeys(n))+2 <= i && i < len(n) ==> n[i] == old(n[i])) && n[2*lo] == old(n[2*lo]) && n[2*lo+1] == old(n[2*lo+1])
+
+// set: insert-or-overwrite in sorted position.  r is the slot search finds.
+//@ func (n node) set(k, v uint64) (numAdded int)
+//@   paths
+//@   requires GcWfNode(n) && k != 0 && (GcNumKeys(n) < maxKeys || exists i int :: 0 <= i && i < GcNumKeys(n) && GcKey(n, i) == k)
+//@   modifies n[*]
+//@   at call setAt#1 assert #step-padding forall i int :: GcNumKeys(n) <= i && i < maxKeys ==> GcKey(n, i) == 0 && GcVal(n, i) == 0
+//@   at call setAt#1 assert #step-sorted forall i, j int :: 0 <= i && i < j && j < GcNumKeys(n) && i != idx && j != idx ==> GcKey(n, i) < GcKey(n, j)
+//@   at call setAt#1 assert #step-bounds (forall i int :: 0 <= i && i < idx ==> GcKey(n, i) < k) && (forall i int :: idx < i && i < GcNumKeys(n) ==> GcKey(n, i) > k) && (forall i int :: 0 <= i && i < GcNumKeys(n) && i != idx ==> GcKey(n, i) != 0)
+//@   ensures [C10] #wf GcWfNode(n)
+//@   ensures [C10] #overwrite forall r int :: old(GcFirstGE(n, k, r)) && r < old(GcNumKeys(n)) && old(GcKey(n, r)) == k ==> numAdded == 0 && GcNumKeys(n) == old(GcNumKeys(n)) && GcKey(n, r) == k && GcVal(n, r) == v && forall i int :: 0 <= i && i < GcNumKeys(n) && i != r ==> GcKey(n, i) == old(GcKey(n, i)) && GcVal(n, i) == old(GcVal(n, i))
+//@   ensures [C10] #insert forall r int :: old(GcFirstGE(n, k, r)) && (r == old(GcNumKeys(n)) || old(GcKey(n, r)) != k) ==> numAdded == 1 && GcNumKeys(n) == old(GcNumKeys(n))+1 && GcKey(n, r) == k && GcVal(n, r) == v && (forall i int :: 0 <= i && i < r ==> GcKey(n, i) == old(GcKey(n, i)) && GcVal(n, i) == old(GcVal(n, i))) && forall i int :: r+1 <= i && i <= old(GcNumKeys(n)) ==> GcKey(n, i) == old(GcKey(n, i-1)) && GcVal(n, i) == old(GcVal(n, i-1))
+//@   ensures [C10] #meta n[2*maxKeys] == old(n[2*maxKeys]) && n[2*maxKeys+1]&0xFFFFFFFF00000000 == old(n[2*maxKeys+1])&0xFFFFFFFF00000000
